@@ -1,5 +1,5 @@
 (* C11 - property theorems only. *)
-From HV Require Import Prelude C11_Model C11_Check C11_Proofs C11_Proofs2 C11_Proofs3 C11_Proofs4 C11_Proofs5 C11_Proofs6 C11_Proofs7 C11_Proofs8 C11_ProofsRegion C11_ProofsRegion2 C11_Proofs10 C11_Proofs9.
+From HV Require Import Prelude C11_Model C11_Check C11_Proofs C11_Proofs2 C11_Proofs3 C11_Proofs4 C11_Proofs5 C11_Proofs6 C11_Proofs7 C11_Proofs8 C11_ProofsRegion C11_ProofsRegion2 C11_Proofs10 C11_Proofs9 C11_Hist C11_ProofsHist.
 From Coq Require Import Permutation Sorted.
 
 (* sorting (Haplotypes.sort / Haplotype.sort): a permutation, ordered by
@@ -382,3 +382,205 @@ Theorem C11_region_string_on_index_output : forall f, wf f -> range_okb f = true
     Forall2 entry_same (filter (selected (Some r) ids) full) res'.
 Proof. exact region_string_on_index_output. Qed.
 Print Assumptions C11_region_string_on_index_output.
+
+(* ======================= histories on one output path (C11_Hist) ======================= *)
+
+(* whatever happened to the output path before - earlier runs on other inputs or in the other
+   mode, inputs older or newer than what lies there, files written over it, the .gz or the
+   .tbi removed - the path holds, after a run of the anchored code, a BGZF file with lines
+   [index_output] of THAT run's input and an index built from it; and the run fails exactly
+   when [index_output] does.  (fixed = false: outside the NotImplementedError defect below) *)
+Theorem C11_hist_output_is_index_of_last_input : forall fixed d0 hist sort older src f,
+  negb fixed && gzip_beside_tbi sort src (present (od_index (fst (run fixed false d0 hist)))) = false ->
+  match index_output sort f with
+  | Ok out => run fixed false d0 (hist ++ [HIndex sort older src f]) = (fresh out, Ok tt)
+  | Err e => snd (run fixed false d0 (hist ++ [HIndex sort older src f])) = Err e
+  end.
+Proof. exact hist_last_input. Qed.
+Print Assumptions C11_hist_output_is_index_of_last_input.
+
+Theorem C11_hist_output_is_index_of_last_input_fixed : forall d0 hist sort older src f,
+  match index_output sort f with
+  | Ok out => run true false d0 (hist ++ [HIndex sort older src f]) = (fresh out, Ok tt)
+  | Err e => snd (run true false d0 (hist ++ [HIndex sort older src f])) = Err e
+  end.
+Proof. exact hist_last_input_fixed. Qed.
+Print Assumptions C11_hist_output_is_index_of_last_input_fixed.
+
+Theorem C11_hist_output_is_index_of_last_input_legacy : forall d0 hist sort older src f,
+  sort = false \/ src <> Here false \/ od_index (fst (run false false d0 hist)) = None ->
+  match index_output sort f with
+  | Ok out => run false false d0 (hist ++ [HIndex sort older src f]) = (fresh out, Ok tt)
+  | Err e => snd (run false false d0 (hist ++ [HIndex sort older src f])) = Err e
+  end.
+Proof. exact hist_last_input_legacy. Qed.
+Print Assumptions C11_hist_output_is_index_of_last_input_legacy.
+
+Theorem C11_hist_independent : forall d0 d1 h0 h1 sort o0 o1 s0 s1 f out,
+  index_output sort f = Ok out ->
+  run true false d0 (h0 ++ [HIndex sort o0 s0 f]) = run true false d1 (h1 ++ [HIndex sort o1 s1 f]).
+Proof. exact hist_independent. Qed.
+Print Assumptions C11_hist_independent.
+
+Theorem C11_hist_keeps_records : forall f, wf f -> range_okb f = true ->
+  forall fixed d0 hist older src,
+  negb fixed && gzip_beside_tbi true src (present (od_index (fst (run fixed false d0 hist)))) = false ->
+  exists out,
+    run fixed false d0 (hist ++ [HIndex true older src f]) = (fresh out, Ok tt) /\
+    tabix_accepts out = true /\ Permutation (records f) (records out).
+Proof. exact hist_keeps_records. Qed.
+Print Assumptions C11_hist_keeps_records.
+
+Theorem C11_hist_nosort_verbatim : forall f, tabix_accepts f = true ->
+  forall fixed d0 hist older src,
+    run fixed false d0 (hist ++ [HIndex false older src f]) = (fresh f, Ok tt).
+Proof. exact hist_nosort_verbatim. Qed.
+Print Assumptions C11_hist_nosort_verbatim.
+
+Theorem C11_hist_nosort_refused : forall f, tabix_accepts f = false ->
+  forall fixed d0 hist older src,
+    snd (run fixed false d0 (hist ++ [HIndex false older src f])) = Err E_OS.
+Proof. exact hist_nosort_refused. Qed.
+Print Assumptions C11_hist_nosort_refused.
+
+(* queries on the path after any history = the filter of a full read of the LAST input *)
+Theorem C11_hist_region_string_query :
+  forall (fetch : list line -> Z -> option Z -> option Z -> res (list line)),
+  (forall g q a b, tabix_accepts g = true -> fetch g q a b = fetch_spec g q a b) ->
+  forall f, wf f -> range_okb f = true ->
+  forall fixed d0 hist older src,
+  negb fixed && gzip_beside_tbi true src (present (od_index (fst (run fixed false d0 hist)))) = false ->
+  forall pfixed nm r c s ids,
+  let out := to_str (sort_data (map (entry_of (vrecs f)) (hrs f))) in
+  names_ok nm -> ids_safe out nm pfixed ->
+  name_of nm (r_contig r) = Some c ->
+  bounds_ok r = true -> print_reg c (r_a r) (r_b r) = Some s ->
+  (if pfixed then r_a r = None -> bare_ambiguous nm out s = false
+   else has_colon c = false /\ (r_a r = None \/ is_seq nm out s = false)) ->
+  In (r_contig r) (contigs f) ->
+  exists full res res',
+    run fixed false d0 (hist ++ [HIndex true older src f]) = (fresh out, Ok tt) /\
+    read_plain f None = Ok full /\
+    read_indexed_s pfixed fetch out nm s ids = Ok res /\
+    Permutation res res' /\
+    Forall2 entry_same (filter (selected (Some r) ids) full) res'.
+Proof. exact hist_region_string_query. Qed.
+Print Assumptions C11_hist_region_string_query.
+
+Theorem C11_hist_ids_query :
+  forall (fetch : list line -> Z -> option Z -> option Z -> res (list line)),
+  (forall g q a b, tabix_accepts g = true -> fetch g q a b = fetch_spec g q a b) ->
+  forall f, wf f -> range_okb f = true ->
+  forall fixed d0 hist older src,
+  negb fixed && gzip_beside_tbi true src (present (od_index (fst (run fixed false d0 hist)))) = false ->
+  forall ids, NoDup ids ->
+  let out := to_str (sort_data (map (entry_of (vrecs f)) (hrs f))) in
+  exists full res res',
+    run fixed false d0 (hist ++ [HIndex true older src f]) = (fresh out, Ok tt) /\
+    read_plain f None = Ok full /\
+    read_indexed false fetch out None (Some ids) = Ok res /\
+    Permutation res res' /\
+    Forall2 entry_same (filter (selected None (Some ids)) full) res'.
+Proof. exact hist_ids_query. Qed.
+Print Assumptions C11_hist_ids_query.
+
+(* what the history checker means *)
+Theorem C11_split_run_spec : forall ops hist sort older src f,
+  split_run ops = Some (hist, (sort, older, src, f)) <-> ops = hist ++ [HIndex sort older src f].
+Proof. exact split_run_iff. Qed.
+Print Assumptions C11_split_run_spec.
+
+Theorem C11_holds_hist_sound : forall k hist sort older src f,
+  split_run (hc_ops k) = Some (hist, (sort, older, src, f)) ->
+  holds_hist k = true ->
+  hc_ret k = Err E_Unobserved \/
+  (hc_fixed k = false /\ gzip_beside_tbi sort src (hc_tbi_before k) = true) \/
+  (holds_index (as_icase k sort f) = true /\
+   forall out, hist_obs k = Ok out -> holds_query (as_qcase k f out) = true).
+Proof. exact holds_hist_sound. Qed.
+Print Assumptions C11_holds_hist_sound.
+
+Theorem C11_holds_hist_sorted_sound : forall k hist older src f,
+  split_run (hc_ops k) = Some (hist, (true, older, src, f)) ->
+  wf_file f = true -> range_okb f = true ->
+  (hc_fixed k = true \/ gzip_beside_tbi true src (hc_tbi_before k) = false) ->
+  holds_hist k = true ->
+  hc_ret k = Err E_Unobserved \/
+  exists out, hc_ret k = Ok tt /\ hc_data k = Some out
+    /\ Permutation (records f) (records out)
+    /\ tabix_okb out = true
+    /\ hc_tbi k = true
+    /\ hc_fetch k = Ok (data_lines out)
+    /\ (hc_plain k = true -> hc_after k = Some f)
+    /\ holds_query (as_qcase k f out) = true.
+Proof. exact holds_hist_sorted_sound. Qed.
+Print Assumptions C11_holds_hist_sorted_sound.
+
+Theorem C11_holds_hist_nosort_sound : forall k hist older src f,
+  split_run (hc_ops k) = Some (hist, (false, older, src, f)) ->
+  holds_hist k = true ->
+  hc_ret k = Err E_Unobserved \/
+  (tabix_accepts f = false /\ exists e, hist_obs k = Err e) \/
+  (hc_ret k = Ok tt /\ hc_data k = Some f /\ hc_tbi k = true /\ hc_fetch k = Ok (data_lines f)
+   /\ (hc_plain k = true -> hc_after k = Some f)).
+Proof. exact holds_hist_nosort_sound. Qed.
+Print Assumptions C11_holds_hist_nosort_sound.
+
+(* the "skip if the output looks up to date" variant, refuted on two-run histories *)
+Example C11_skip_if_up_to_date_refuted :
+  let f1 := [LH 1 5 20 2 []; LH 1 5 10 3 []; LV 2 8 8 4 5 []] in
+  let f2 := [LH 2 3 10 6 []; LV 6 4 4 4 5 []] in
+  let g := [LC 7; LH 1 5 10 3 [8]; LH 1 5 20 2 []; LV 2 8 8 4 5 [9]] in
+  let out1 := [LC 0; LH 1 5 10 3 []; LH 1 5 20 2 []; LV 2 8 8 4 5 []] in
+  let out2 := [LC 0; LH 2 3 10 6 []; LV 6 4 4 4 5 []] in
+  wf_file f1 = true /\ wf_file f2 = true /\ wf_file g = true /\
+  index_output true f1 = Ok out1 /\ index_output true f2 = Ok out2 /\
+  index_output true g = Ok out1 /\ index_output false g = Ok g /\
+  run true false disk0 [HIndex true false Elsewhere f1; HIndex true true Elsewhere f2] = (fresh out2, Ok tt) /\
+  run true false disk0 [HIndex true false Elsewhere g; HIndex false true Elsewhere g] = (fresh g, Ok tt) /\
+  run true true disk0 [HIndex true false Elsewhere f1; HIndex true true Elsewhere f2] = (fresh out1, Ok tt) /\
+  perm_eqb item_eqb (records f2) (records out1) = false /\
+  run true true disk0 [HIndex true false Elsewhere g; HIndex false true Elsewhere g] = (fresh out1, Ok tt) /\
+  lines_eqb out1 g = false /\
+  run true true disk0 [HIndex true false Elsewhere f1; HIndex true true (Here true) f2]
+    = (mkod (Some (true, f2)) (Some out1), Ok tt) /\
+  run true true disk0 [HIndex true false Elsewhere f1; HIndex true false Elsewhere f2] = (fresh out2, Ok tt).
+Proof. exact skip_if_up_to_date_refuted. Qed.
+Print Assumptions C11_skip_if_up_to_date_refuted.
+
+(* a defect of the tree as it is (fixes/C11_gzip_beside_tbi.patch) *)
+Example C11_legacy_gzip_beside_tbi_refuted :
+  let f1 := [LH 1 5 20 2 []; LH 1 5 10 3 []] in
+  let f2 := [LH 2 3 10 6 []; LV 6 4 4 4 5 []] in
+  let out2 := [LC 0; LH 2 3 10 6 []; LV 6 4 4 4 5 []] in
+  wf_file f2 = true /\ index_output true f2 = Ok out2 /\
+  snd (run false false disk0 [HIndex true false Elsewhere f1; HIndex true false (Here false) f2]) = Err E_Runtime /\
+  run true false disk0 [HIndex true false Elsewhere f1; HIndex true false (Here false) f2] = (fresh out2, Ok tt) /\
+  run false false disk0 [HIndex true false Elsewhere f1; HIndex true false (Here true) f2] = (fresh out2, Ok tt) /\
+  run false false disk0 [HIndex true false Elsewhere f1; HIndex false false (Here false) f2] = (fresh f2, Ok tt) /\
+  run false false disk0 [HIndex true false Elsewhere f1; HRmIndex; HIndex true false (Here false) f2] = (fresh out2, Ok tt).
+Proof. exact legacy_gzip_beside_tbi_refuted. Qed.
+Print Assumptions C11_legacy_gzip_beside_tbi_refuted.
+
+Example C11_failed_run_leaves_stale_index :
+  let f1 := [LH 1 5 20 2 []; LH 1 5 10 3 []] in
+  let bad := [LH 1 9 20 2 []; LH 1 5 10 3 []] in
+  let out1 := [LC 0; LH 1 5 10 3 []; LH 1 5 20 2 []] in
+  run true false disk0 [HIndex true false Elsewhere f1; HIndex false false Elsewhere bad]
+    = (mkod (Some (true, bad)) (Some out1), Err E_OS) /\
+  run true false disk0 [HIndex true false Elsewhere f1; HIndex false false Elsewhere bad; HIndex true true Elsewhere f1]
+    = (fresh out1, Ok tt).
+Proof. exact failed_run_leaves_stale_index. Qed.
+Print Assumptions C11_failed_run_leaves_stale_index.
+
+Example C11_hist_hypotheses_satisfiable :
+  let f1 := [LH 1 5 20 2 []; LH 1 5 10 3 []; LV 2 8 8 4 5 []] in
+  let f2 := [LH 2 3 10 6 []; LV 6 4 4 4 5 []] in
+  let out2 := [LC 0; LH 2 3 10 6 []; LV 6 4 4 4 5 []] in
+  let k := mkhc false [HIndex true false Elsewhere f1; HRmData; HIndex true true Elsewhere f2] true true
+             (Ok tt) (Some out2) true (Ok (data_lines out2)) (Some f2)
+             (Ok [(mkh false 2 3 10 6, [mkv 6 4 4 4 5])]) [([50], 2); ([104], 6)] true
+             [mkqo (Some (mkreg 2 (Some 3) None)) (Some [50; 58; 51; 45]) None (Ok [(mkh false 2 3 10 6, [mkv 6 4 4 4 5])])] in
+  wf_file f2 = true /\ range_okb f2 = true /\ check_hist k = (true, true).
+Proof. exact hist_hypotheses_satisfiable. Qed.
+Print Assumptions C11_hist_hypotheses_satisfiable.
